@@ -166,7 +166,6 @@ func TestDecisionTableGrid(t *testing.T) {
 			evid.CountN("grid."+stateName(p)+"->"+stateName(o), c)
 		}
 	}
-	evid.NonTrivial(fmt.Sprintf("grid|%d", n))
 	t.Logf("grid points: %d; transitions seen: %v", n, dist)
 	// the grid must actually reach promotions, otherwise clause (i) is vacuous
 	for _, tr := range []string{"Candidate->Newbie", "Newbie->Verified", "Verified->Human", "Suspended->Verified", "Zombie->Verified", "Human->Human", "Human->Suspended", "Suspended->Zombie", "Newbie->Killed"} {
@@ -237,7 +236,7 @@ func TestDecisionTableNearBoundaries(t *testing.T) {
 			evid.Count("near.missed-or-lacking-flips")
 		}
 		if out.NewbieOrBetter() && out != in.Prior {
-			evid.NonTrivial("near|" + in.String())
+			evid.Count("near.promotions")
 		}
 	})
 }
